@@ -248,7 +248,23 @@ Definition prop_ok (c : case) (os : list origin) (txt : text) : bool :=
   && list_eqb line_eqb txt (case_text c start)
   && origins_ok_from c 0 os.
 
-Definition okb (c : case) : bool := prop_ok c (case_origins c) (lines_of (c_text c)).
+(** Strict form of the last clause: an unresolved origin never names the starting commit
+    (the initial placeholder) — it must point outside the searched range. *)
+Definition strict_ok (c : case) (os : list origin) : bool :=
+  forallb (fun o => o_ok o || negb (Nat.eqb (o_commit o) (N.to_nat (c_start c)))) os.
+
+Definition okb (c : case) : bool :=
+  prop_ok c (case_origins c) (lines_of (c_text c)) && strict_ok c (case_origins c).
+
+(** Known-finding class (annotate-unresolved-root-counted-twice): two nodes of the searched
+    graph have a missing edge to the same omitted parent, so [num_unresolved_roots] counts
+    it twice and [process_commits] may stop while a commit inside the domain is pending. *)
+Definition known_class (c : case) : bool :=
+  let missing_targets nd := map fst (filter is_missing (snd nd)) in
+  existsb (fun nd1 => existsb (fun nd2 =>
+      negb (Nat.eqb (fst nd1) (fst nd2)) &&
+      existsb (fun p => existsb (Nat.eqb p) (missing_targets nd2)) (missing_targets nd1))
+    (case_nodes c)) (case_nodes c).
 
 Definition model_origins (c : case) : list origin :=
   let start := N.to_nat (c_start c) in
@@ -257,4 +273,4 @@ Definition model_origins (c : case) : list origin :=
 Definition check_case (c : case) : N :=
   let c1 := inputs_ok c in
   let c2 := list_eqb origin_eqb (model_origins c) (case_origins c) in
-  verdict (c1 && c2) (okb c) false (if c1 then 2 else 1).
+  verdict (c1 && c2) (okb c) (known_class c && negb (okb c)) (if c1 then 2 else 1).
